@@ -12,12 +12,20 @@ STATUS: PARTIAL.  What is proved here, for traces of any length with any number 
       (`Teleport.Gen.guards`), satisfy the discipline declared for their field in `Conc.guardOf`, except the
       sites listed in `Conc.knownRacy` (`C14_discipline_partial`), that those exceptions really violate it
       (`C14_known_racy_sites_violate`), and that the extraction was complete (`C14_extraction_complete`).
+  (3) that the functions the guard map merely NAMES are used as named, on the call sites REGENERATED from the Go
+      source (`Teleport.Gen.callers`, …): `heldIn` functions are only called with the lock held exclusively or from
+      functions established to hold it (`C14_heldIn_callers_hold_lock`), `afterDone` accessors receive from the done
+      channel before touching the command (`C14_afterDone_receives_first`), constructor-excused accesses are made
+      to objects that are still local (`C14_ctor_sites`), and the extracted names are exactly the named ones
+      (`C14_trusted_names_extracted`).  What stays trusted of the naming is listed explicitly, site by site:
+      `Conc.calleeTrusted`, `Conc.cmdCallerOrdered`, `Conc.ctorTrusted` (each with a `_witness` theorem).
 What is NOT proved (full statement kept visible):
       "for every interleaving of the documented-safe public operations on shared sessions and peers, the
        execution of the real Go code has no data race in the sense of the Go memory model."
   Missing between (1)+(2) and that statement: the step from a Go execution to a trace whose lock regions are the
-  syntactic ones of the table (no callee inlining: functions named in `heldIn`/`afterDone` are trusted to be
-  called only as described; lock identity is by (type, field), not by instance; aliasing is ignored), all fields
+  syntactic ones of the table (no callee inlining: the calling conventions of the functions named in
+  `heldIn`/`afterDone`/`ctors` are checked on the regenerated call sites, see (3), and trusted only for the listed
+  sites; lock identity is by (type, field), not by instance; aliasing is ignored), all fields
   outside the watch list, the Go runtime, `sync.WaitGroup`/`sync.Map`/`sync.Pool` internals, accesses through
   `unsafe` (router controller pools) and reflection.  The Go race detector run by the harness on stress
   scenarios is supporting evidence (a test) for exactly that gap, and is how a concrete schedule is found.
@@ -26,6 +34,8 @@ signature or a site the table predicts to race).
 -/
 import Teleport.Lemmas.Conc
 import Teleport.Gen.Guards
+import Teleport.Gen.Callers
+import Teleport.Model.ConcCallers
 namespace Teleport
 namespace C14
 open Teleport.Conc
@@ -267,6 +277,157 @@ theorem C14_watched_fields_present :
        "ReadCounter.count", "WriteCounter.count", "peer.tlsConfig", "pluginSingleContainer.plugins",
        "session.protoFuncs"] := by
   decide +kernel
+
+-- BEGIN callers
+/-! ## (3) the functions NAMED by the guard map: regenerated call sites instead of trusted naming
+
+`Conc.guardOf` excuses sites by the NAME of their enclosing function: `heldIn` (only called with the lock held),
+`afterDone` (accessor that blocks on `<-Done()` first), `ctors` (the object is not shared yet).  The group
+`Teleport.Gen.Callers` (harness/cmd/srcfacts/facts_callers.go) regenerates, on every run, every use of each of
+these functions in the module with the locks held there (same walk as the site table), the done-channel receive
+of the accessors and the locality of the constructed objects.  All checks below are ONE kernel evaluation
+(`C14_callers_checked`); the named theorems are its parts. -/
+
+/-- the regenerated uses of the named functions. -/
+def callSites : List CallSite := Teleport.Gen.callers.map CallSite.ofRow
+
+/-- the fields of the regenerated site table, and their declared disciplines. -/
+def tableFields : List String := dedupAdj (sites.map (·.field))
+def entries : List (String × Discipline) := guardEntries tableFields
+
+/-- names used by the guard map = names whose uses were extracted (as sets of (role, name)). -/
+def namesEqual : Bool :=
+  (declaredNames tableFields).all (Teleport.Gen.callerTargets.contains ·) &&
+    Teleport.Gen.callerTargets.all ((declaredNames tableFields).contains ·)
+
+/-- the extractor's constructor / afterDone targets (equal to the guard map's names by `namesEqual`). -/
+def ctorTargets : List String := targetNames Teleport.Gen.callerTargets "ctor"
+def afterDoneTargets : List String := targetNames Teleport.Gen.callerTargets "afterDone"
+
+/-- no constructor is started with `go`, deferred, or used as a method value (a constructor literal occurs as
+a value where it is created). -/
+def ctorUsesOk : Bool :=
+  callSites.all fun c => !ctorTargets.contains c.callee || c.kind == "call" ||
+    (c.kind == "value" && c.via == "lit")
+
+/-- All obligations about the named functions, in one kernel evaluation over the regenerated tables
+(`Gen.callers`, `Gen.afterDoneFns`, `Gen.ctorAccess`, `Gen.guards`).  The theorems below name its parts. -/
+theorem C14_callers_checked :
+    Teleport.Gen.callers_missing = [] ∧ Teleport.Gen.callersUnresolved = [] ∧
+    namesEqual = true ∧
+    heldInOk callSites entries = true ∧
+    noAsyncUse callSites (heldNamesAll entries) = true ∧
+    trustedSitesFail callSites entries = true ∧
+    afterDoneNamesOk Teleport.Gen.afterDoneFns entries = true ∧
+    afterDoneSitesOk Teleport.Gen.afterDoneFns afterDoneTargets sites = true ∧
+    callerOrderedFail Teleport.Gen.afterDoneFns = true ∧
+    ctorSitesOk Teleport.Gen.ctorAccess ctorTargets sites = true ∧
+    ctorUsesOk = true ∧
+    ctorTrustedFail Teleport.Gen.ctorAccess = true := by
+  decide +kernel
+
+/-- The extractor covers exactly the names the guard map uses: the (role, name) pairs of every `ctors`, `heldIn`
+and `afterDone` list of `guardOf` (over all fields of the regenerated site table) together with `Conc.calleeHeld`
+are, as a set, EQUAL to `Gen.callerTargets`, the list for which facts_callers.go extracted the uses, and every one
+of them was found in the source.  Naming a further function in `guardOf` without extracting its callers, or
+keeping a stale name in the extractor, makes this fail to build. -/
+theorem C14_trusted_names_extracted :
+    Teleport.Gen.callers_missing = [] ∧ namesEqual = true :=
+  ⟨C14_callers_checked.1, C14_callers_checked.2.2.1⟩
+
+/-- `heldIn` is no longer trusted naming.  For every lock `l` of the guard map and every function `f` that some
+entry guarded by `l` lists in `heldIn` (or that `Conc.calleeHeld` lists for `l`): every use of `f` in the module —
+none could be left unresolved (`callersUnresolved = []`) — is an ordinary call that holds `l` EXCLUSIVELY in the
+syntactic lock region of the caller, or lies in a function already established to run with `l` held (least fixed
+point `heldClosure`, 4 rounds, starting from the constructors of the entries guarded by `l`; a deferred call or
+deferred literal counts only inside such a function; the assignment of the redial literal to the field through
+which it is called — no such literal on the current tree, see `Conc.calleeHeld` — is not a call), and no use is a `go` statement or a function value — except the site-level
+list `Conc.calleeTrusted` (lock hand-over bindReply → handleReply; `RawLocked` inside a ProtoFunc literal).
+A new call of `hasReply`/`cancel`/`initOptimize`/`handleReply` outside the lock, a lock region narrowed so
+that such a call falls outside, a `go c.cancel(…)`, or a method value of one of them makes this fail to build.  PARTIAL: syntactic regions; lock identity by (type, field); the receiver of the call is not
+compared with the locked object. -/
+theorem C14_heldIn_callers_hold_lock :
+    Teleport.Gen.callers_missing = [] ∧ Teleport.Gen.callersUnresolved = [] ∧
+    heldInOk callSites entries = true ∧ noAsyncUse callSites (heldNamesAll entries) = true :=
+  ⟨C14_callers_checked.1, C14_callers_checked.2.1, C14_callers_checked.2.2.2.1, C14_callers_checked.2.2.2.2.1⟩
+
+/-- The trusted call sites are real and really not lexical: each `calleeTrusted` entry matches a use in the current
+table at which NO lock is held and whose enclosing function is not itself a named one (so the list cannot hide a
+site that is fine, and an entry whose site disappeared fails). -/
+theorem C14_callee_trusted_sites_witness :
+    Teleport.Gen.callers_missing = [] ∧ trustedSitesFail callSites entries = true :=
+  ⟨C14_callers_checked.1, C14_callers_checked.2.2.2.2.2.1⟩
+
+/-- `afterDone` is no longer trusted naming.  Every accessor that a `donePublished` entry lists in `afterDone`
+either is one of `Conc.cmdCallerOrdered` (Status, StatusOK, RealIP: documented for use once the command is
+complete — still trusted) or has a top-level receive from the command's done channel (`<-c.Done()` /
+`<-c.doneChan`) before which it touches no field of the command; and every table site that only the
+`afterDone` clause excuses (outside `cmdCallerOrdered`) is an access of a field that the accessor touches after
+that receive.  Removing the receive from `Reply`/`InputMeta`/`InputBodyCodec`/`CostTime`, or reading a field
+before it, makes this fail to build. -/
+theorem C14_afterDone_receives_first :
+    Teleport.Gen.callers_missing = [] ∧
+    afterDoneNamesOk Teleport.Gen.afterDoneFns entries = true ∧
+    afterDoneSitesOk Teleport.Gen.afterDoneFns afterDoneTargets sites = true :=
+  ⟨C14_callers_checked.1, C14_callers_checked.2.2.2.2.2.2.1, C14_callers_checked.2.2.2.2.2.2.2.1⟩
+
+/-- the accessors of `cmdCallerOrdered` really contain no receive from the done channel (they are trusted, not
+checked: the list cannot hide an accessor that does receive). -/
+theorem C14_callerOrdered_no_receive_witness :
+    Teleport.Gen.callers_missing = [] ∧ callerOrderedFail Teleport.Gen.afterDoneFns = true :=
+  ⟨C14_callers_checked.1, C14_callers_checked.2.2.2.2.2.2.2.2.1⟩
+
+/-- `ctors`: what could be established.  Every site of the table that is excused by NOTHING but the constructor
+clause of its discipline (it would violate the discipline otherwise) is — unless listed in `Conc.ctorTrusted` —
+an access that the extractor finds in that constructor on an object the constructor itself creates: a key of a
+composite literal, or a field of a local variable bound there to `&T{…}`/`T{…}`/`new(T)`/the result of another
+constructor, at a point that no escape of that variable (argument of a call, store, send, capture by a literal,
+`go`) lexically precedes (an assignment counts at its end: its right-hand side is evaluated first).  And no
+constructor is started with `go`, deferred or used as a method value.  NOT established (trusted): that the
+callers of a constructor publish the result only after the constructor returned is by construction (the result
+is its return value); method calls on the new object are not counted as escapes. -/
+theorem C14_ctor_sites :
+    Teleport.Gen.callers_missing = [] ∧
+    ctorSitesOk Teleport.Gen.ctorAccess ctorTargets sites = true ∧ ctorUsesOk = true :=
+  ⟨C14_callers_checked.1, C14_callers_checked.2.2.2.2.2.2.2.2.2.1, C14_callers_checked.2.2.2.2.2.2.2.2.2.2.1⟩
+
+/-- the trusted constructor accesses really are made after an escape (`socket.protocol` in newSocket,
+`session.redialForClientLocked` in peer.Dial). -/
+theorem C14_ctor_trusted_witness :
+    Teleport.Gen.callers_missing = [] ∧ ctorTrustedFail Teleport.Gen.ctorAccess = true :=
+  ⟨C14_callers_checked.1, C14_callers_checked.2.2.2.2.2.2.2.2.2.2.2⟩
+
+/-! non-vacuity of the obligations on the shapes the extractor emits -/
+
+/-- a call outside the lock, under a shared hold only, started with `go`, used as a value, or made from another
+package does not satisfy the obligation; the same call under the exclusive hold does. -/
+example : siteHolds "callCmd.mu" [] ⟨"callCmd.cancel", "call", "direct", "session.foo", "session.go", "", []⟩ = false := by decide +kernel
+example : siteHolds "callCmd.mu" [] ⟨"callCmd.cancel", "call", "direct", "session.foo", "session.go", "", [("callCmd.mu", "R")]⟩ = false := by decide +kernel
+example : siteHolds "callCmd.mu" [] ⟨"callCmd.cancel", "call", "direct", "session.foo", "session.go", "", [("session.lock", "W")]⟩ = false := by decide +kernel
+example : siteHolds "callCmd.mu" [] ⟨"callCmd.cancel", "go", "direct", "session.foo", "session.go", "", [("callCmd.mu", "W")]⟩ = false := by decide +kernel
+example : siteHolds "callCmd.mu" [] ⟨"callCmd.cancel", "value", "direct", "session.foo", "session.go", "", [("callCmd.mu", "W")]⟩ = false := by decide +kernel
+example : siteHolds "callCmd.mu" [] ⟨"callCmd.cancel", "defer", "direct", "session.foo", "session.go", "", [("callCmd.mu", "W")]⟩ = false := by decide +kernel
+example : siteHolds "socket.mu" [] ⟨"socket.RawLocked", "call", "ext", "Foo", "x/y.go", "", [("socket.mu", "W")]⟩ = false := by decide +kernel
+example : siteHolds "callCmd.mu" [] ⟨"callCmd.cancel", "call", "direct", "session.readDisconnected$lit", "session.go", "", [("callCmd.mu", "W")]⟩ = true := by decide +kernel
+
+/-- the closure is a least fixed point: two functions that only call each other are NOT established, a function
+called under the lock is, and then so is the one it calls. -/
+example : heldClosure [⟨"A", "call", "direct", "B", "f.go", "", []⟩, ⟨"B", "call", "direct", "A", "f.go", "", []⟩] "m" ["A", "B"] [] 4 = [] := by decide +kernel
+example : heldClosure [⟨"A", "call", "direct", "C", "f.go", "", [("m", "W")]⟩, ⟨"B", "call", "direct", "A", "f.go", "", []⟩] "m" ["A", "B"] [] 4 = ["A", "B"] := by decide +kernel
+example : heldClosure [⟨"A", "call", "direct", "C", "f.go", "", [("m", "W")]⟩, ⟨"A", "call", "direct", "D", "f.go", "", []⟩] "m" ["A"] [] 4 = [] := by decide +kernel
+
+/-- an accessor without receive, or touching a field before it, fails; a site on a field not touched after the
+receive fails. -/
+example : afterDoneOk [("callCmd.Reply", "", ["result", "stat"], [])] "callCmd.Reply" = false := by decide +kernel
+example : afterDoneOk [("callCmd.Reply", "Done()", ["stat"], ["result"])] "callCmd.Reply" = false := by decide +kernel
+example : afterDoneOk [("callCmd.Reply", "Done()", [], ["result", "stat"])] "callCmd.Reply" = true := by decide +kernel
+example : afterDoneSiteOk [("callCmd.Reply", "Done()", [], ["result"])] ⟨"callCmd.stat", "R", false, [], "callCmd.Reply", "context.go"⟩ = false := by decide +kernel
+
+/-- a constructor write after the object escaped is not local; a literal key or a write before any escape is. -/
+example : ctorSiteLocal [("newSocket", "socket.protocol", "W", "escaped:arg")] ⟨"socket.protocol", "W", false, [], "newSocket", "socket/socket.go"⟩ = false := by decide +kernel
+example : ctorSiteLocal [] ⟨"socket.protocol", "W", false, [], "newSocket", "socket/socket.go"⟩ = false := by decide +kernel
+example : ctorSiteLocal [("newSocket", "socket.Conn", "W", "lit")] ⟨"socket.Conn", "W", false, [], "newSocket", "socket/socket.go"⟩ = true := by decide +kernel
+-- END callers
 
 end C14
 end Teleport
